@@ -44,9 +44,7 @@ Theorem C19_constructors_keep_cache :
   (forall m e rg m' r, mk_loop m e rg = Some (m', r) -> cache m' = cache m) /\
   (forall m l m' r, inter_list m l = Some (m', r) -> cache m' = cache m) /\
   (forall m l m' r, union_list m l = Some (m', r) -> cache m' = cache m).
-Proof.
-  exact (conj make_cache (conj concat_cache (conj mk_loop_cache (conj inter_list_cache union_list_cache)))).
-Qed.
+Proof. exact constructors_keep_cache. Qed.
 Print Assumptions C19_constructors_keep_cache.
 
 (* computing a derivative keeps every cache entry as it is, and touches no key whose id is above
@@ -136,6 +134,43 @@ Theorem C19_iter_complete_partial : forall fuel m e m' l,
   forall r, dreach m' e r -> In r l.
 Proof. exact iter_complete. Qed.
 Print Assumptions C19_iter_complete_partial.
+
+(* ---- the same three facts in terms of characters and strings (partition facts of C11 turn
+   class ids into characters; still no language semantics) ---- *)
+
+(* closed under char_derivative for every character: a cache hit (manager unchanged) returning a
+   term == to a yielded one ... *)
+Theorem C19_iter_closed_char_partial : forall fuel m e m' l,
+  iter_derivatives fuel m e = Some (m', l) -> Forall ids_desc l -> cls_ok l ->
+  forall r c, In r l -> good c ->
+  exists d, char_derivative m' r c = Some (m', d) /\ In (rid d) (map rid l).
+Proof. exact iter_closed_char. Qed.
+Print Assumptions C19_iter_closed_char_partial.
+
+(* ... the very term the iterator yielded, when ids determine terms *)
+Theorem C19_iter_closed_char_in_partial : forall fuel m e m' l,
+  iter_derivatives fuel m e = Some (m', l) -> Forall ids_desc l -> cls_ok l ->
+  inj_ids (l ++ map snd (cache m')) ->
+  forall r c, In r l -> good c ->
+  exists d, char_derivative m' r c = Some (m', d) /\ In d l.
+Proof. exact iter_closed_char_in. Qed.
+Print Assumptions C19_iter_closed_char_in_partial.
+
+(* every yielded term is str_derivative e u for some well-formed u *)
+Theorem C19_iter_reachable_str_partial : forall fuel m e m' l,
+  iter_derivatives fuel m e = Some (m', l) -> Forall ids_desc l -> cls_ok l ->
+  inj_ids (l ++ map snd (cache m')) ->
+  forall r, In r l -> exists u, goodw u /\ str_derivative m' e u = Some (m', r).
+Proof. exact iter_reachable_str. Qed.
+Print Assumptions C19_iter_reachable_str_partial.
+
+(* every iterated derivative str_derivative e u (u well-formed) is yielded *)
+Theorem C19_iter_complete_str_partial : forall fuel m e m' l,
+  iter_derivatives fuel m e = Some (m', l) -> Forall ids_desc l -> cls_ok l ->
+  inj_ids (l ++ map snd (cache m')) ->
+  forall u, goodw u -> exists d, str_derivative m' e u = Some (m', d) /\ In d l.
+Proof. exact iter_complete_str. Qed.
+Print Assumptions C19_iter_complete_str_partial.
 
 (* the run only extends the cache of the manager it started from *)
 Theorem C19_iter_cache_ext_partial : forall fuel m e m' l,
